@@ -203,7 +203,8 @@ def job_perm(job: dict) -> dict:
     root.mkdir(parents=True, exist_ok=True)
     files = projects.build(job["n"], job["cross"], job["layout"])
     drive.write_tree(root, dict(files))
-    (root / ".thailint.yaml").write_text(projects.BASE_CONFIG)
+    # "overrides": the sections carry per-language thresholds - which language is linted first must not matter
+    (root / ".thailint.yaml").write_text(projects.CONFIGS[job.get("config", "base")])
     os.chdir(root)
     paths = [root / rel for rel, _ in files]
     ref = None
@@ -331,6 +332,7 @@ def run(chk) -> None:
             perms = perms[:130]
         for layout in ("flat", "samename"):
             pjobs.append({"n": n, "cross": [[1, 2], [3, n]] if n >= 4 else [[1, 3]], "layout": layout,
+                          "config": "overrides" if layout == "samename" or n == 5 else "base",
                           "perms": [list(p) for p in perms]})
     for n in ([12] if quick else [12, 20]):
         perms = []
@@ -352,7 +354,8 @@ def run(chk) -> None:
     for job, r_ in zip(pjobs, res):
         if not r_.ok:
             raise MachineryError(f"C08 permutation job failed: {r_.error}")
-        chk.count({"kind": "perm", "n": job["n"], "layout": job["layout"], "nperm": r_.value["nperm"], "mode": job.get("mode", "sequential")},
+        chk.count({"kind": "perm", "n": job["n"], "layout": job["layout"], "nperm": r_.value["nperm"], "mode": job.get("mode", "sequential"),
+                   "config": job.get("config", "base")},
                   nontrivial=True, n=r_.value["nperm"])
         for b in r_.value["bad"][:3]:
             v = (b["missing"] + b["extra"])[0]
